@@ -518,4 +518,187 @@ theorem specEncStoreDataBytes_eq (kv : KV) (dp : List Bytes) :
     funext p
     simp only [encLenField, encTag_2_2, vtEncPrefix]
 
+/-! ### the specification decoder on encoder output (StoreData) -/
+
+theorem pwVarint_0a (r : Bytes) : pwVarint ((0x0a : UInt8) :: r) = .ok (10, r) := rfl
+theorem pwVarint_12 (r : Bytes) : pwVarint ((0x12 : UInt8) :: r) = .ok (18, r) := rfl
+
+theorem pwBytes_enc (p rest : Bytes) (h : p.length < two64) :
+    pwBytes (encVarint p.length ++ (p ++ rest)) = .ok (p, rest) := by
+  unfold pwBytes
+  rw [pwVarint_enc h]
+  simp only [List.length_append, List.take_left, List.drop_left]
+  rw [if_neg (by omega)]
+
+theorem pwMsgLoop_nil {σ : Type} (h : σ → Nat → Nat → Bytes → Except SpecErr (Option (σ × Bytes)))
+    (f : Nat) (s : σ) : pwMsgLoop h (f + 1) [] s = .ok s := by
+  rw [pwMsgLoop, if_pos rfl]
+
+theorem specEntry_key (f : Nat) (k rest : Bytes) (s : Bytes × Bytes) (hk : k.length < two64)
+    (hutf : validUTF8 k = true) :
+    pwMsgLoop specEntryField (f + 1) ((0x0a : UInt8) :: (encVarint k.length ++ (k ++ rest))) s
+      = pwMsgLoop specEntryField f rest (k, s.2) := by
+  rw [pwMsgLoop, if_neg (by simp)]
+  simp only [pwVarint_0a]
+  rw [if_neg (by decide), if_neg (by decide)]
+  simp only [specEntryField, pwLenField, pwBytes_enc k rest hk, pwString, hutf, Except.map]
+  simp
+
+theorem specEntry_val (f : Nat) (v rest : Bytes) (s : Bytes × Bytes) (hv : v.length < two64) :
+    pwMsgLoop specEntryField (f + 1) ((0x12 : UInt8) :: (encVarint v.length ++ (v ++ rest))) s
+      = pwMsgLoop specEntryField f rest (s.1, v) := by
+  rw [pwMsgLoop, if_neg (by simp)]
+  simp only [pwVarint_12]
+  rw [if_neg (by decide), if_neg (by decide)]
+  simp only [specEntryField, pwLenField, pwBytes_enc v rest hv]
+  simp
+
+theorem specEntry_body (k v : Bytes) (hlen : (vtEncEntryBody k v).length < two64) (hutf : validUTF8 k = true) :
+    pwMsg specEntryField (vtEncEntryBody k v) ([], []) = .ok (k, v) := by
+  have hbl := vtEncEntryBody_length k v
+  have hp1 := encVarint_length_pos k.length
+  have hp2 := encVarint_length_pos v.length
+  have hk64 : k.length < two64 := by omega
+  have hv64 : v.length < two64 := by omega
+  unfold pwMsg
+  rw [show (vtEncEntryBody k v).length + 1 = ((vtEncEntryBody k v).length - 2) + 1 + 1 + 1 by omega]
+  generalize (vtEncEntryBody k v).length - 2 = F
+  unfold vtEncEntryBody
+  simp only [List.append_assoc, List.cons_append, List.nil_append]
+  rw [specEntry_key _ k _ _ hk64 hutf]
+  have := specEntry_val (F + 1) v [] (k, []) hv64
+  simp only [List.append_nil] at this
+  rw [this]
+  exact pwMsgLoop_nil _ _ _
+
+theorem specStore_entry (f : Nat) (e : Bytes × Bytes) (tail : Bytes) (d : StoreData)
+    (hlen : (vtEncEntry e).length < two64) (hutf : validUTF8 e.1 = true) :
+    pwMsgLoop specStoreField (f + 1) (vtEncEntry e ++ tail) d
+      = pwMsgLoop specStoreField f tail { d with kv := kvInsert d.kv e.1 e.2 } := by
+  rw [vtEncEntry_length] at hlen
+  unfold vtEncEntry
+  simp only [List.append_assoc, List.cons_append, List.nil_append]
+  rw [pwMsgLoop, if_neg (by simp)]
+  simp only [pwVarint_0a]
+  rw [if_neg (by decide), if_neg (by decide)]
+  simp only [specStoreField, pwLenField, pwBytes_enc _ tail (show (vtEncEntryBody e.1 e.2).length < two64 by omega),
+    specEntry_body e.1 e.2 (by omega) hutf, Except.map]
+  simp
+
+theorem specStore_prefix (f : Nat) (p tail : Bytes) (d : StoreData)
+    (hlen : p.length < two64) (hutf : validUTF8 p = true) :
+    pwMsgLoop specStoreField (f + 1) (vtEncPrefix p ++ tail) d
+      = pwMsgLoop specStoreField f tail { d with dp := d.dp ++ [p] } := by
+  unfold vtEncPrefix
+  simp only [List.append_assoc, List.cons_append, List.nil_append]
+  rw [pwMsgLoop, if_neg (by simp)]
+  simp only [pwVarint_12]
+  rw [if_neg (by decide), if_neg (by decide)]
+  simp only [specStoreField, pwLenField, pwBytes_enc p tail hlen, pwString, hutf, Except.map]
+  simp
+
+theorem specStore_entries (es : KV) : ∀ (f : Nat) (tail : Bytes) (d : StoreData),
+    (es.flatMap vtEncEntry).length < two64 → (∀ e ∈ es, validUTF8 e.1 = true) →
+    pwMsgLoop specStoreField (f + es.length) (es.flatMap vtEncEntry ++ tail) d
+      = pwMsgLoop specStoreField f tail { d with kv := es.foldl (fun m e => kvInsert m e.1 e.2) d.kv } := by
+  induction es with
+  | nil => intro f tail d _ _; simp
+  | cons e t ih =>
+    intro f tail d hlen hutf
+    simp only [List.flatMap_cons, List.append_assoc, List.length_cons, List.foldl_cons, List.length_append] at *
+    rw [← Nat.add_assoc, specStore_entry _ e _ d (by omega) (hutf e (by simp))]
+    rw [ih f tail _ (by omega) (fun x hx => hutf x (by simp [hx]))]
+
+theorem specStore_prefixes (ps : List Bytes) : ∀ (f : Nat) (tail : Bytes) (d : StoreData),
+    (ps.flatMap vtEncPrefix).length < two64 → (∀ p ∈ ps, validUTF8 p = true) →
+    pwMsgLoop specStoreField (f + ps.length) (ps.flatMap vtEncPrefix ++ tail) d
+      = pwMsgLoop specStoreField f tail { d with dp := d.dp ++ ps } := by
+  induction ps with
+  | nil => intro f tail d _ _; simp
+  | cons p t ih =>
+    intro f tail d hlen hutf
+    simp only [List.flatMap_cons, List.append_assoc, List.length_cons, List.length_append] at *
+    have hpl := vtEncPrefix_length p
+    rw [← Nat.add_assoc, specStore_prefix _ p _ d (by omega) (hutf p (by simp))]
+    rw [ih f tail _ (by omega) (fun x hx => hutf x (by simp [hx]))]
+    simp
+
+/-- the standard decoder reads the fast encoder's bytes (keys and prefixes must be valid UTF-8: F18) -/
+theorem specDecode_enc (es : KV) (ps : List Bytes) (hnd : (es.map (·.1)).Nodup)
+    (hlen : (vtEncStoreData es ps).length < two64)
+    (hk : ∀ e ∈ es, validUTF8 e.1 = true) (hp : ∀ p ∈ ps, validUTF8 p = true) :
+    specDecodeStoreData (vtEncStoreData es ps) = .ok ⟨es, ps⟩ := by
+  unfold specDecodeStoreData pwMsg
+  unfold vtEncStoreData at *
+  have h1 := length_le_flatMap vtEncEntry (fun e => by rw [vtEncEntry_length]; omega) es
+  have h2 := length_le_flatMap vtEncPrefix (fun p => by rw [vtEncPrefix_length]; omega) ps
+  rw [List.length_append] at hlen
+  generalize hL : (es.flatMap vtEncEntry ++ ps.flatMap vtEncPrefix).length = L
+  have hL' : L = (es.flatMap vtEncEntry).length + (ps.flatMap vtEncPrefix).length := by
+    rw [← hL, List.length_append]
+  rw [show L + 1 = ((L - es.length - ps.length) + 1 + ps.length) + es.length by omega]
+  rw [specStore_entries es _ _ _ (by omega) hk]
+  have := specStore_prefixes ps ((L - es.length - ps.length) + 1) []
+  simp only [List.append_nil] at this
+  rw [this _ (by omega) hp]
+  rw [pwMsgLoop_nil]
+  rw [foldl_kvInsert es [] (by simpa using hnd)]
+  simp
+
+/-! ### the Binary marshaller -/
+
+theorem binEncEntry_length (e : Bytes × Bytes) :
+    (binEncEntry e).length = (encVarint e.1.length).length + e.1.length + ((encVarint e.2.length).length + e.2.length) := by
+  unfold binEncEntry
+  simp only [List.length_append]
+
+theorem binReadLoop_entry (n : Nat) (e : Bytes × Bytes) (tail : Bytes) (out : KV)
+    (hlen : (binEncEntry e).length < two64) :
+    binReadLoop (n + 1) (binEncEntry e ++ tail) out = binReadLoop n tail (kvInsert out e.1 e.2) := by
+  rw [binEncEntry_length] at hlen
+  unfold binEncEntry
+  simp only [List.append_assoc]
+  rw [binReadLoop]
+  simp only [uvarint_enc (show e.1.length < two64 by omega)]
+  rw [if_neg (by simp only [List.length_append]; omega)]
+  simp only [List.drop_left, List.take_left, uvarint_enc (show e.2.length < two64 by omega)]
+  rw [if_neg (by simp only [List.length_append]; omega)]
+
+theorem binReadLoop_entries (es : KV) : ∀ (tail : Bytes) (out : KV),
+    (es.flatMap binEncEntry).length < two64 →
+    binReadLoop es.length (es.flatMap binEncEntry ++ tail) out
+      = .ok (es.foldl (fun m e => kvInsert m e.1 e.2) out) := by
+  induction es with
+  | nil => intro tail out _; simp [binReadLoop]
+  | cons e t ih =>
+    intro tail out hlen
+    simp only [List.flatMap_cons, List.append_assoc, List.length_cons, List.foldl_cons, List.length_append] at *
+    rw [binReadLoop_entry _ e _ out (by omega), ih _ _ (by omega)]
+
+theorem binSize_eq (kv : KV) : binSize kv = (binEnc kv).length := by
+  simp only [binSize, binEnc]
+  rw [List.length_append, length_flatMap', uvarintByteCount_eq]
+  congr 1
+  apply sum_map_congr
+  intro e
+  rw [binEncEntry_length, uvarintByteCount_eq, uvarintByteCount_eq]
+  omega
+
+theorem marshalBinary_eq (kv : KV) : marshalBinary kv = .ok (binEnc kv) := by
+  simp only [marshalBinary]
+  rw [if_pos (binSize_eq kv)]
+
+theorem unmarshalBinary_enc (es : KV) (hnd : (es.map (·.1)).Nodup) (hlen : (binEnc es).length < two64) :
+    unmarshalBinary (binEnc es) = .ok es := by
+  unfold binEnc at *
+  rw [List.length_append] at hlen
+  have h1 := length_le_flatMap binEncEntry (fun e => by
+    rw [binEncEntry_length]; have := encVarint_length_pos e.1.length; omega) es
+  unfold unmarshalBinary
+  simp only [uvarint_enc (show es.length < two64 by omega)]
+  have := binReadLoop_entries es [] [] (by omega)
+  simp only [List.append_nil] at this
+  rw [this, foldl_kvInsert es [] (by simpa using hnd)]
+  simp
+
 end SV.Wire
